@@ -32,8 +32,16 @@ def script_line(script):
     return "script " + " ".join("%s/%s" % (",".join(e["acts"]) or "-", e["res"]) for e in script) if script else "script"
 
 
+def model_event(ev):
+    """The event as the model knows it: an OffsetCommit reply without an entry for the partition is a failed attempt."""
+    w = ev.split()
+    if w[0] == "commitDone" and len(w) > 2 and w[2] == "empty":
+        return "commitDone %s err kafka:0" % w[1]
+    return ev
+
+
 def model_lines(sc):
-    return [cfg_line(sc["cfg"]), script_line(sc.get("script", []))] + list(sc["events"])
+    return [cfg_line(sc["cfg"]), script_line(sc.get("script", []))] + [model_event(e) for e in sc["events"]]
 
 
 def canon_impl(line, cfg):
@@ -112,6 +120,7 @@ def trace_lines(sc, impl):
     cfg = sc["cfg"]
     out = ["tr-reset"]
     for ev, obs in zip(sc["events"], impl):
+        ev = model_event(ev)
         if obs == ["bad-op"]:
             out.append("tr rej " + ev)
             continue
